@@ -17,6 +17,9 @@ pub enum CK {
     Plain,
     Oneway,
     More,
+    /// a call flagged `upgrade` that expects a reply: owed one reply like a plain call (a peer that keeps speaking
+    /// Varlink - it refused the upgrade with an error, or ignores the flag as zlink's own server does - answers it)
+    Upgrade,
 }
 
 #[derive(Clone, Debug)]
@@ -145,7 +148,7 @@ pub fn line(c: &Case, obs: &(Vec<Vec<u8>>, Vec<String>, Vec<String>)) -> String 
     let mut s = if c.prelude > 0 { format!("chain PRE{} K", c.prelude) } else { String::from("chain K") };
     for (k, call) in &c.calls {
         let b = serde_json::to_vec(call).unwrap();
-        s.push_str(&format!(" {}:{}", match k { CK::Plain => 'p', CK::Oneway => 'o', CK::More => 'm' }, enc_bytes(&b)));
+        s.push_str(&format!(" {}:{}", match k { CK::Plain => 'p', CK::Oneway => 'o', CK::More => 'm', CK::Upgrade => 'u' }, enc_bytes(&b)));
     }
     s.push_str(" F");
     for (f, k) in &c.script {
@@ -221,6 +224,7 @@ fn mk_call(k: CK, rng: &mut Rng) -> Call<M1> {
         CK::Plain => c,
         CK::Oneway => c.set_oneway(true),
         CK::More => c.set_more(true),
+        CK::Upgrade => c.set_upgrade(true),
     }
 }
 
@@ -264,7 +268,7 @@ pub fn gen_case(shape: &[CK], rng: &mut Rng, exhaustive_cut: Option<usize>) -> C
     for k in shape {
         match k {
             CK::Oneway => {}
-            CK::Plain => script.push(final_reply(rng, true)),
+            CK::Plain | CK::Upgrade => script.push(final_reply(rng, true)),
             CK::More => {
                 for _ in 0..rng.below(4) {
                     script.push(cont_reply(rng));
@@ -324,7 +328,7 @@ pub fn gen_big(rng: &mut Rng) -> Case {
     for k in &shape {
         match k {
             CK::Oneway => {}
-            CK::Plain => script.push(final_reply(rng, true)),
+            CK::Plain | CK::Upgrade => script.push(final_reply(rng, true)),
             CK::More => {
                 for _ in 0..per {
                     let nm = big_name(rng);
@@ -379,6 +383,20 @@ pub fn main(o: &Opts) {
                 vec![line(&c, &obs)]
             });
         }
+    }
+    // chains of 2..6 calls over {plain, oneway, more, upgrade} with at least one upgrade call
+    for _ in 0..(if o.thorough() { 2000 } else { 160 }) {
+        let mut r2 = Rng::new(rng.next());
+        em.case(|| {
+            let all = [CK::Plain, CK::Oneway, CK::More, CK::Upgrade];
+            let len = r2.range(2, 6);
+            let mut shape: Vec<CK> = (0..len).map(|_| *r2.pick(&all)).collect();
+            let at = r2.below(len);
+            shape[at] = CK::Upgrade;
+            let c = gen_case(&shape, &mut r2, None);
+            let obs = run_case(&c);
+            vec![line(&c, &obs)]
+        });
     }
     for _ in 0..(if o.thorough() { 80 } else { 8 }) {
         let mut r2 = Rng::new(rng.next());
